@@ -1326,7 +1326,7 @@ impl StorageEngine {
                         *list = new_list;
                     } else {
                         let mut new_list = VecDeque::new();
-                        let mut to_remove = (-count) as usize;
+                        let mut to_remove = count.unsigned_abs();
                         
                         for item in list.drain(..).rev() {
                             if item == element && to_remove > 0 {
@@ -1618,8 +1618,9 @@ impl StorageEngine {
                             result.truncate(n);
                             result
                         } else {
-                            let n = (-count) as usize;
-                            let mut result = Vec::with_capacity(n);
+                            let n = usize::try_from(count.unsigned_abs()).unwrap_or(usize::MAX);
+                            // Reserve for what is plausible, not for whatever was asked
+                            let mut result = Vec::with_capacity(n.min(members.len().max(1024)));
                             for _ in 0..n {
                                 if let Some(member) = members.choose(&mut rng) {
                                     result.push(member.clone());
@@ -1868,7 +1869,12 @@ impl StorageEngine {
                         Some(current_bytes) => {
                             let current_str = String::from_utf8_lossy(current_bytes);
                             match current_str.parse::<i64>() {
-                                Ok(current) => current + increment,
+                                Ok(current) => match current.checked_add(increment) {
+                                    Some(sum) => sum,
+                                    None => return Err(FerrousError::Command(CommandError::Generic(
+                                        "increment or decrement would overflow".to_string()
+                                    ))),
+                                },
                                 Err(_) => return Err(FerrousError::Command(CommandError::NotInteger)),
                             }
                         }
@@ -1947,22 +1953,25 @@ impl StorageEngine {
                 Value::String(bytes) => {
                     let len = bytes.len() as isize;
                     
+                    // Negative indexes count from the end; work in isize until both bounds are
+                    // known to lie inside the string (an end before the start of the string, an
+                    // empty string or start > end all give the empty string)
                     let start = if start < 0 {
-                        std::cmp::max(0, len + start) as usize
+                        std::cmp::max(0, len.saturating_add(start))
                     } else {
-                        start as usize
+                        start
                     };
                     
                     let end = if end < 0 {
-                        std::cmp::max(-1, len + end) as usize
+                        len.saturating_add(end)
                     } else {
-                        std::cmp::min(end as usize, len as usize - 1)
+                        std::cmp::min(end, len - 1)
                     };
                     
-                    if start > end || start >= bytes.len() {
+                    if end < 0 || start > end || start >= len {
                         Vec::new()
                     } else {
-                        bytes[start..=end].to_vec()
+                        bytes[start as usize..=end as usize].to_vec()
                     }
                 }
                 _ => return Err(StorageError::WrongType.into()),
@@ -1976,18 +1985,27 @@ impl StorageEngine {
     }
     
     pub fn setrange(&self, db: DatabaseIndex, key: Key, offset: usize, value: Vec<u8>) -> Result<usize> {
+        // The resulting string may not exceed 512 MB (the limit Redis uses): an offset taken
+        // from the client must neither overflow the length computation nor size an allocation
+        const MAX_STRING_LEN: usize = 512 * 1024 * 1024;
+        let required_len = match offset.checked_add(value.len()) {
+            Some(n) if n <= MAX_STRING_LEN => n,
+            _ => return Err(FerrousError::Command(CommandError::Generic(
+                "string exceeds maximum allowed size (512MB)".to_string()
+            ))),
+        };
+        
         let shard = self.get_shard(db, &key)?;
         let mut shard_guard = shard.write().unwrap();
         
         let new_len = if let Some(stored_value) = shard_guard.data.get_mut(&key) {
             match &mut stored_value.value {
                 Value::String(bytes) => {
-                    let required_len = offset + value.len();
                     if required_len > bytes.len() {
                         bytes.resize(required_len, 0);
                     }
                     
-                    bytes[offset..offset + value.len()].copy_from_slice(&value);
+                    bytes[offset..required_len].copy_from_slice(&value);
                     let len = bytes.len();
                     
                     // NO touch() call - no access time tracking overhead
@@ -1998,7 +2016,7 @@ impl StorageEngine {
             }
         } else {
             // Create new string with padding
-            let mut new_string = vec![0; offset + value.len()];
+            let mut new_string = vec![0; required_len];
             new_string[offset..].copy_from_slice(&value);
             let len = new_string.len();
             
